@@ -288,6 +288,9 @@ func (n *ReconcileNode) Reconcile(ctx context.Context, request reconcile.Request
 		}
 	}
 
+	// a sync whose result can not be written is still owed
+	syncOwed := nodeStatus.NeedSyncOpenAPI.Load()
+
 	err = n.syncWithAPI(ctx, node)
 	if err != nil {
 		return reconcile.Result{}, err
@@ -308,7 +311,7 @@ func (n *ReconcileNode) Reconcile(ctx context.Context, request reconcile.Request
 
 		err = n.client.Status().Update(ctx, node)
 
-		if err != nil && nodeStatus.StatusChanged.CompareAndSwap(true, false) {
+		if err != nil && (nodeStatus.StatusChanged.CompareAndSwap(true, false) || syncOwed) {
 			nodeStatus.NeedSyncOpenAPI.Store(true)
 		}
 
